@@ -104,7 +104,11 @@ def gen_cases(unit, ctx):
         a = small[i]
         dist = [([], []), ([("ts", 0, 3, 4)], []), ([], [("ts", 0, 3, 4)]), ([("ts", 0, 3, 4)], [("ks", 5, "Eb")]),
                 ([("ks", 5, "Eb")], [("ts", 10, 6, 8)]), ([("ts", 5, 5, 8)], [("ts", 5, 5, 8)]), ([], [("ts", 3, 2, 2), ("ks", 3, "B")]),
-                ([("pc", 0, 3)], [("pc", 5, 9), ("ts", 10, 3, 4)])]
+                ([("pc", 0, 3)], [("pc", 5, 9), ("ts", 10, 3, 4)]),
+                # a signature that returns (A - B - A) with the B in between living on the other sequence
+                ([("ts", 0, 3, 4), ("ts", 30, 3, 4), ("ks", 0, "E"), ("ks", 30, "E")], [("ts", 10, 2, 4), ("ks", 10, "Ab")]),
+                ([("ts", 10, 2, 4), ("ks", 10, "Ab")], [("ts", 0, 3, 4), ("ts", 30, 3, 4), ("ks", 0, "E"), ("ks", 30, "E")]),
+                ([("ks", 0, "G"), ("ts", 5, 6, 8)], [("ks", 3, "G"), ("ts", 10, 6, 8)])]
         for b in small:
             for ea, eb in dist:
                 if a or b or ea or eb:
